@@ -113,12 +113,14 @@ theorem reject_invalid (k : Jwk) (c : Curve) (x y : Nat) (h : ecFromJwk k = some
                 exact ⟨rfl, ho, xb, yb, rfl, rfl, hl1, hl2, rfl, rfl⟩
               · simp [ho] at h
 
-/-- Ed25519: round trip, and only 32-byte `x` values are accepted -/
-theorem ed_roundtrip (pub : Bytes) (h : pub.length = 32) : edFromJwk (edToJwk pub) = some pub := by
-  simp [edFromJwk, edToJwk, b64_decode_encode_str, h]
+/-- Ed25519: round trip for every public key (32 bytes that encode a point of the curve), and only
+    such `x` values are accepted: wrong widths and strings that are no point are refused -/
+theorem ed_roundtrip (pub : Bytes) (h : pub.length = 32) (hp : Ed.isPoint pub = true) :
+    edFromJwk (edToJwk pub) = some pub := by
+  simp [edFromJwk, edToJwk, b64_decode_encode_str, h, hp]
 
 theorem ed_reject_wrong_width (k : Jwk) (pub : Bytes) (h : edFromJwk k = some pub) :
-    k.kty = "OKP" ∧ k.crv = "Ed25519" ∧ b64DecodeStr k.x = some pub ∧ pub.length = 32 := by
+    k.kty = "OKP" ∧ k.crv = "Ed25519" ∧ b64DecodeStr k.x = some pub ∧ pub.length = 32 ∧ Ed.isPoint pub = true := by
   unfold edFromJwk at h
   by_cases hk : k.kty ≠ "OKP" ∨ k.crv ≠ "Ed25519"
   · simp [hk] at h
@@ -127,12 +129,12 @@ theorem ed_reject_wrong_width (k : Jwk) (pub : Bytes) (h : edFromJwk k = some pu
     | none => simp [hx] at h
     | some xb =>
       simp only [hx] at h
-      by_cases hl : xb.length = 32
-      · simp only [hl, if_true, Option.some.injEq] at h
+      by_cases hl : xb.length = 32 ∧ Ed.isPoint xb = true
+      · simp only [hl, and_self, if_true, Option.some.injEq] at h
         subst h
         have h1 : k.kty = "OKP" := Classical.byContradiction fun hne => hk (Or.inl hne)
         have h2 : k.crv = "Ed25519" := Classical.byContradiction fun hne => hk (Or.inr hne)
-        exact ⟨h1, h2, rfl, hl⟩
+        exact ⟨h1, h2, rfl, hl.1, hl.2⟩
       · simp [hl] at h
 
 /-- same key ⇒ same JWK ⇒ same canonical JSON: the encoding is a function of the key alone, so
